@@ -56,7 +56,7 @@ def main():
         jobs = int(args[1])
         args = args[2:]
     want = set(args)
-    dirs = [d for d in sorted(glob.glob(os.path.join(VERIF, "seeded", "C*-*m*"))) if os.path.isdir(d) and (not want or os.path.basename(d) in want)]
+    dirs = [d for d in sorted(set(glob.glob(os.path.join(VERIF, "seeded", "C*-*m*")) + glob.glob(os.path.join(VERIF, "seeded", "C*-s*")))) if os.path.isdir(d) and (not want or os.path.basename(d) in want)]
     wts = Queue()
     made = []
     for _ in range(jobs):
